@@ -319,16 +319,14 @@ theorem handleMsg_flips (g : Geom) (pieces : List PieceSt) (k : Nat) (p : Peer) 
     simp only [handleMsg]
     split
     · exact ⟨rfl, fun e he => by cases he⟩
-    · rename_i hx
-      split
+    · split
       · rename_i hb
         have hb' : getB p.bits x = false := by simpa using hb
         refine ⟨?_, fun e he => by simp at he; subst he; exact Or.inr rfl⟩
-        simp only [sigs_cons, sigs_nil, sgn, setBit, getB_setN, List.append_nil]
+        simp only [sigs_cons, sigs_nil, sgn, getB_setBit_true, List.append_nil]
         by_cases hxi : x = i
         · subst hxi
-          have : x < p.bits.length := by omega
-          simp [hb', this, Flips]
+          simp [hb', Flips]
         · simp [hxi, Flips]
       · exact ⟨rfl, fun e he => by cases he⟩
   | bitfield bs =>
@@ -346,20 +344,26 @@ theorem handleMsg_flips (g : Geom) (pieces : List PieceSt) (k : Nat) (p : Peer) 
     simp only [handleMsg]
     split
     · exact ⟨rfl, fun e he => by cases he⟩
-    · refine ⟨?_, ?_⟩
-      · simp only [sigs_append, sigs_cons, sigs_nil, hr, sgn_bitmap, List.append_nil]
-        exact flips_two _ _
-      · intro e he
-        rcases List.mem_append.mp he with h | h
-        · exact htr e h
-        · simp at h; subst h; exact Or.inr rfl
+    · split
+      · refine ⟨?_, ?_⟩
+        · simp only [sigs_append, sigs_cons, sigs_nil, hr, sgn_bitmap, List.append_nil]
+          exact flips_two _ _
+        · intro e he
+          rcases List.mem_append.mp he with h | h
+          · exact htr e h
+          · simp at h; subst h; exact Or.inr rfl
+      · refine ⟨?_, htr⟩
+        rw [hr]
+        have : getB ([] : List Bool) i = false := by cases i <;> rfl
+        simp only [this]
+        cases getB p.bits i <;> simp [Flips]
   | haveNone =>
     simp only [handleMsg]
     split
     · exact ⟨rfl, fun e he => by cases he⟩
     · refine ⟨?_, htr⟩
       rw [hr]
-      have : getB (List.replicate g.npieces false) i = false := by rw [getB_replicate]; split <;> rfl
+      have : getB ([] : List Bool) i = false := by cases i <;> rfl
       simp only [this]
       cases getB p.bits i <;> simp [Flips]
   | dontHave x =>
@@ -367,15 +371,16 @@ theorem handleMsg_flips (g : Geom) (pieces : List PieceSt) (k : Nat) (p : Peer) 
     split
     · exact ⟨rfl, fun e he => by cases he⟩
     · split
-      · rename_i hb
-        refine ⟨?_, fun e he => by simp at he; subst he; exact Or.inr rfl⟩
-        simp only [sigs_cons, sigs_nil, sgn, setBit, getB_setN, List.append_nil]
-        by_cases hxi : x = i
-        · subst hxi
-          have : x < p.bits.length := by omega
-          simp [hb, this, Flips]
-        · simp [hxi, Flips]
       · exact ⟨rfl, fun e he => by cases he⟩
+      · split
+        · rename_i hb
+          refine ⟨?_, fun e he => by simp at he; subst he; exact Or.inr rfl⟩
+          simp only [sigs_cons, sigs_nil, sgn, getB_setBit_false, List.append_nil]
+          by_cases hxi : x = i
+          · subst hxi
+            simp [hb, Flips]
+          · simp [hxi, Flips]
+        · exact ⟨rfl, fun e he => by cases he⟩
   | allowedFast x =>
     simp only [handleMsg]
     split
@@ -426,6 +431,30 @@ theorem handleMsg_flips (g : Geom) (pieces : List PieceSt) (k : Nat) (p : Peer) 
             exact quiet_flips i k p _ _ (hsb.trans' h1) (by rw [h2]; rfl)
           · obtain ⟨h1, h2⟩ := maybeRequest_av neutral_tagW g slow p1 [dropEv g (toChunk g idx begin)]
             exact quiet_flips i k p _ _ (hsb.trans' h1) (by rw [h2]; rfl)
+
+theorem handlePeerEv_flips (g : Geom) (k : Nat) (p : Peer) (e : PeerEv) (slow : Bool) (i : Nat) (hp : BitsOK g p) :
+    Flips (getB p.bits i) (sigs i k (handlePeerEv g k p e slow).2.1) (getB (handlePeerEv g k p e slow).1.bits i) ∧
+    ∀ x ∈ (handlePeerEv g k p e slow).2.1, tagOf x = none ∨ tagOf x = some k := by
+  by_cases hne : e = .metadata
+  · subst hne
+    obtain ⟨_, hnil⟩ := hp
+    unfold handlePeerEv
+    simp only []
+    split
+    · exact ⟨rfl, fun x hx => by cases hx⟩
+    · split
+      · split
+        · exact ⟨rfl, fun x hx => by cases hx⟩
+        · rename_i hb
+          have hb' : p.bmNil = true := by simpa using hb
+          refine ⟨?_, fun x hx => by simp at hx; subst hx; exact Or.inr rfl⟩
+          simp only [sigs_cons, sigs_nil, sgn_bitmap, List.append_nil, hnil hb' i]
+          cases getB (List.replicate g.npieces true) i <;> simp [Flips]
+      · split
+        · exact ⟨rfl, fun x hx => by cases hx⟩
+        · exact ⟨rfl, fun x hx => by cases hx⟩
+  · obtain ⟨h1, h2⟩ := handlePeerEv_quiet neutral_tagW g k p e slow hne
+    exact quiet_flips i k p _ _ h1 h2
 
 theorem exitEvents_flips (g : Geom) (k : Nat) (p : Peer) (i : Nat) :
     Flips (getB p.bits i) (sigs i k (exitEvents g k p)) false ∧
@@ -1089,10 +1118,10 @@ theorem step_finv (s : State) (op : Op) (hF : FInv s) (hA : AInv s) : FInv (step
         · split
           · exact hF
           · rename_i e rest he
-            obtain ⟨h1, h2⟩ := handlePeerEv_av neutral_tagW s.g { p with evq := rest } e slow
-            have hsb : sameBits p (handlePeerEv s.g { p with evq := rest } e slow).1 := ⟨h1.1, h1.2⟩
+            have hbo : BitsOK s.g { p with evq := rest } := hW.bits p (mem_of_get _ _ _ hp)
             exact finv_commitPeer s hF i p hp rest true _ _
-              (fun j => (quiet_flips j i p _ _ hsb h2).1) (quiet_flips 0 i p _ _ hsb h2).2
+              (fun j => (handlePeerEv_flips s.g i { p with evq := rest } e slow j hbo).1)
+              (handlePeerEv_flips s.g i { p with evq := rest } e slow 0 hbo).2
     | peerMsg i m slow =>
       simp only []
       split
@@ -1223,6 +1252,13 @@ theorem step_finv (s : State) (op : Op) (hF : FInv s) (hA : AInv s) : FInv (step
       · split
         · exact finv_frameT s _ hF rfl (TSame.refl _) rfl rfl id
         · exact hF
+    | metaComplete =>
+      simp only []
+      split
+      · exact hF
+      · split
+        · exact finv_frameT s _ hF rfl (TSame.refl _) rfl rfl id
+        · exact finv_frameT s _ hF (castMeta_strip s.peers) (TSame.refl _) rfl rfl id
 
 theorem init_finv (g : Geom) (tcap : Nat) : FInv (init g tcap) := by
   refine ⟨?_, ?_, ?_, ?_⟩
